@@ -15,6 +15,11 @@ OUTSIDE = ['more than 3 entries x 2 auxiliaries', 'cyclic next chains (ill-forme
 ENVS = [(32, True), (32, False), (64, True), (64, False)]
 STRTAB = [0] + [ord(c) for c in 'lib.so\0V1\0V2\0']       # 1:'lib.so' 8:'V1' 11:'V2'
 STR_AT = {0: '', 1: 'lib.so', 8: 'V1', 11: 'V2', 4: '.so', 9: '1'}
+# a second table with other strings at the same offsets (instances alternate between the two: a name remembered from one file
+# must not be served for another)
+STRTAB_B = [0] + [ord(c) for c in 'abc_de\0W7\0X9\0']
+STR_AT_B = {0: '', 1: 'abc_de', 8: 'W7', 11: 'X9', 4: '_de', 9: '7'}
+_CUR_STR = [STR_AT]
 
 
 class _Elf:
@@ -133,7 +138,10 @@ def _build(ctx, cfg):
         ents.append((f, auxs))
     image = [0xEE] * base + sec + [0xEE] * 2
     stroff = len(image)
-    image += STRTAB
+    tab = STRTAB_B if cfg.get('strtab') else STRTAB
+    if not ctx.mute:
+        _CUR_STR[0] = STR_AT_B if cfg.get('strtab') else STR_AT
+    image += tab
     elf = _Elf(ctx, ctx.stream(image), cls, little)
     SEC = ctx.lib('elf.sections')
     GV = ctx.lib('elf.gnuversions')
@@ -144,7 +152,7 @@ def _build(ctx, cfg):
 
 
 def _name(ctx, off):
-    return STR_AT[ctx.concretize(off)]
+    return _CUR_STR[0][ctx.concretize(off)]
 
 
 def h_chain(ctx):
@@ -265,7 +273,8 @@ def _chain_instances(tier):
         for need in (False, True):
             for layout in ('contiguous', 'padded', 'aux-last', 'crossed'):
                 for naux in ([1], [2, 1], [1, 2]) + (([2, 2, 1],) if tier == 'thorough' else ()):
-                    out.append(dict(elfclass=cls, little=little, need=need, layout=layout, naux=naux, base=4 if layout == 'padded' else 0, symname=(len(naux) - 1, 0)))
+                    out.append(dict(elfclass=cls, little=little, need=need, layout=layout, naux=naux, base=4 if layout == 'padded' else 0, symname=(len(naux) - 1, 0),
+                                    strtab=len(out) % 2))
             out.append(dict(elfclass=cls, little=little, need=need, layout='contiguous', naux=[]))
     return out
 
@@ -286,10 +295,10 @@ TIER_PARAMS = {'quick': {'conc_cap': 300}, 'thorough': {'conc_cap': 600}}
 HARNESSES = [
     H('h15_1_records', h_records, lambda tier: [dict(elfclass=c, little=l, which=w) for c, l in ENVS for w in ('VERDEF', 'VERDAUX', 'VERNEED', 'VERNAUX')], expect=('ok',),
       desc='Elf_Verdef / Verdaux / Verneed / Vernaux of fully symbolic bytes: layout per the Sun/GNU symbol versioning description'),
-    H('h15_2_chain', h_chain, _chain_instances, expect=('ok',),
+    H('h15_2_chain', h_chain, _chain_instances, decoy='all', expect=('ok',),
       desc='iter_versions over generated sections: 0-3 entries x 1-2 auxiliaries in contiguous, padded, auxiliaries-last and crossed layouts (next/aux displacements '
            'must be followed, not assumed contiguous); all other fields symbolic; file and version names through the linked string table'),
-    H('h15_3_index', h_index, _index_instances, expect=('ok', 'miss'),
+    H('h15_3_index', h_index, _index_instances, decoy='all', expect=('ok', 'miss'),
       desc='get_version(index) with a symbolic 16-bit index over symbolic vd_ndx / vna_other values: the first entry carrying the index, None if none; has_indexes'),
     H('h15_4_versym', h_versym, lambda tier: [dict(elfclass=c, little=l, k=k, base=b) for c, l in ENVS for (k, b) in ((0, 0), (3, 0), (4, 6))], expect=('ok',),
       desc='GNUVerSymSection: one symbolic half-word per symbol paired with the symbol name; reserved indices named'),
